@@ -49,6 +49,13 @@ theorem inRange_toNat_lt {k : Int} {n : Nat} (h : inRange k n = true) : k.toNat 
   obtain ⟨a, b⟩ := (inRange_iff k n).1 h
   omega
 
+theorem wrapIdx_ofNat {x n : Nat} (h : x < n) : wrapIdx (Int.ofNat x) n = some x := by
+  unfold wrapIdx
+  rw [if_pos ⟨by simp, by simpa using h⟩]
+  simp
+
+theorem except_ok_bind {ε β γ : Type} (a : β) (f : β → Except ε γ) : (Except.ok a >>= f) = f a := rfl
+
 /-! ### matrices -/
 
 theorem Mat.get_eq_col [Zero α] (A : Mat α) (i r : Nat) : Mat.get A i r = (A.col r).getD i 0 := by
